@@ -55,7 +55,9 @@ def run_C05(ctx, tier):
     lr = ledger_run(ctx, tier)
     ls = lr["summary"]
     for v in (ls.get("violations") or []):
-        if v["prop"] == "C05":
+        # value created or destroyed by the ledger accounting built on the arithmetic (founds.go, precalculate.go): the checkpoint of
+        # truncation must be the exact net flow of what it moves, and the supply never grows or shrinks
+        if v["prop"] == "C05" or v["key"] in ("checkpoint-funds-not-net-flow", "balance-changed-by-truncation", "supply-grew", "supply-shrank"):
             viol.append({"key": v["key"], "what": "%s [ledger trace %s step %s]" % (v["what"][:400], v["trace"], v["step"]), "detail": v})
     ledger_stats = {k: n for k, n in ls["stats"].items() if "canon" in k or k.startswith("res.add.") or k.startswith("res.create.")}
     return {
